@@ -30,10 +30,14 @@ def sh(cmd):
 
 
 def main():
-    src = sys.argv[1]
+    src = os.path.abspath(sys.argv[1])
     run_all = "--all" in sys.argv
+    no_tests = "--no-tests" in sys.argv      # the pinned suite was already run on these diffs
+    only = [a.split("=", 1)[1] for a in sys.argv if a.startswith("--only=")]
     results = []
     for diff in sorted(glob.glob(os.path.join(src, "*refactor_*.diff"))):
+        if only and not any(o in os.path.basename(diff) for o in only):
+            continue
         wt = tempfile.mkdtemp(prefix="refchk_", dir="/tmp")
         os.rmdir(wt)
         sh("git -C /repo worktree add -q --detach %s HEAD" % wt)
@@ -46,8 +50,11 @@ def main():
                 rec["error"] = ra.stdout[-300:]
                 results.append(rec)
                 continue
-            rt = sh("%s %s" % (os.path.join(HERE, "tools", "run_tests.py"), wt))
-            rec["tests"] = rt.stdout.strip().splitlines()[0] if rt.stdout.strip() else ""
+            if no_tests:
+                rec["tests"] = "skipped"
+            else:
+                rt = sh("%s %s" % (os.path.join(HERE, "tools", "run_tests.py"), wt))
+                rec["tests"] = rt.stdout.strip().splitlines()[0] if rt.stdout.strip() else ""
             files = [l[6:] for l in open(diff).read().splitlines() if l.startswith("+++ b/")]
             rec["files"] = files
             checks = set()
@@ -79,7 +86,8 @@ def main():
         for c in rec.get("alarms", []):
             print("   ", c, rec["checks"][c]["signatures"], rec["checks"][c].get("tail", "")[-200:])
         sys.stdout.flush()
-    json.dump(results, open(os.path.join(src, "refac_results.json"), "w"), indent=1, sort_keys=True)
+    if not only:
+        json.dump(results, open(os.path.join(src, "refac_results.json"), "w"), indent=1, sort_keys=True)
 
 
 if __name__ == "__main__":
